@@ -773,10 +773,10 @@ pub fn run(args: &Args) -> i32 {
     r.require("crashes_injected", 2);
     r.require("reader_vectors", 1);
     // durability-order monitor: a run that saw no interrupted pass / no synced key-value write says nothing
-    r.require("sync.strace_runs", 1);
-    r.require("sync.syscalls_parsed", 200);
-    r.require("sync.partial_passes_observed", 1);
-    r.require("sync.passes.full_pass", 1);
+    r.require("sync.strace_runs", args.tier.pick(1, 6));
+    r.require("sync.syscalls_parsed", args.tier.pick(200, 2000));
+    r.require("sync.partial_passes_observed", args.tier.pick(1, 6));
+    r.require("sync.passes.full_pass", args.tier.pick(1, 6));
     r.require("sync.kv_syncs_checked", 2);
     r.require("sync.kv_syncs_checked.kv_wal", 2);
     r.require("sync.writes.kv_wal", 2);
